@@ -377,13 +377,13 @@ class EtherCat(Protocol):
             data = await self.roundtrip_packet(packet)
             for start, stop, future in dgrams:
                 wkc, = unpack_from("<H", data, stop)
-                if wkc == 0:
+                if future.done():
+                    logging.info("future already done, dropped datagram")
+                elif wkc == 0:
                     future.set_exception(
                         EtherCatError("datagram was not processed"))
-                elif not future.done():
-                    future.set_result(data[start:stop])
                 else:
-                    logging.info("future already done, dropped datagram")
+                    future.set_result(data[start:stop])
         except CancelledError:
             raise
         except Exception as e:
